@@ -28,9 +28,13 @@ static _Bool X_op_eq__CIt_ref_CIt_ref(struct CIt *a, struct CIt *b) { return a->
 static _Bool IdSet__contains(struct IdSet *s, unsigned int *id);
 static void IdSet__emplace(struct IdSet *s, unsigned int *id, struct IdIns *r);
 static void IdSet__erase(struct IdSet *s, unsigned int *id);
+static size_t IdSet__size(struct IdSet *s);
+static _Bool IdSet__empty(struct IdSet *s);
 void Obsv__op_call__virtual(struct Obsv *o, int args);
 _Bool Obsv__isValid__virtual(struct Obsv *o);
 
+/* equality of truth values (a havocked _Bool object may hold any non-zero byte) */
+#define BEQ(a, b) (!(a) == !(b))
 #define ITEMS(s) ((s)->m_observers.items)
 #define LEN(s) ((s)->m_observers.len)
 #define SUBJ_INV_LEN(s) (LEN(s) <= g_scap)
@@ -41,11 +45,16 @@ _Bool Obsv__isValid__virtual(struct Obsv *o);
                          ((g_w_in && g_o2 < LEN(s) && g_o2 > g_oi) ==> ITEMS(s)[g_o2].subscriptionId > g_wid))
 #define SUBJ_INV(s) (SUBJ_INV_LEN(s) && SUBJ_INV_W(s) && SUBJ_INV_O(s) && SUBJ_INV_ORD(s))
 
+/* what loop 0 of notify() establishes about every snapshot entry k other than the watched subscription's (proved as a
+ * loop invariant for the arbitrary index g_c2; CIt__op_star instantiates it at the entry being visited) */
+#define SNAP_OTHER(it, k) ((it)[k].subscriptionId != g_wid && (it)[k].observer != g_wobs)
+struct EObs *g_w;            /* the watched observer object (assigned concretely by the notify harnesses) */
 #define OBJ(p) __CPROVER_POINTER_OBJECT(p)
 /* m_observers is the first member of Subject: the subject that owns a list (pointer ghosts cannot be dereferenced) */
 #define SUBJ_OF(l) ((struct Subj *)(l))
 _Static_assert(__builtin_offsetof(struct Subj, m_observers) == 0, "m_observers is the first member");
 /* a subject whose sequence model is allocated, in a state satisfying the representation invariant */
-#define SUBJ_OK(s) (__CPROVER_is_fresh(s, sizeof(*(s))) && g_scap >= 1 && g_scap <= SCAP_MAX && \
+#define SUBJ_OK0(s) (__CPROVER_is_fresh(s, sizeof(*(s))) && g_scap >= 1 && g_scap <= SCAP_MAX && \
                     __CPROVER_is_fresh(ITEMS(s), g_scap * sizeof(struct ODet)) && g_subj == (s) && \
-                    __CPROVER_is_fresh(g_wobs, sizeof(struct EObs)) && SUBJ_INV(s) && g_w_deletes == 0 && !g_thrown)
+                    __CPROVER_is_fresh(g_wobs, sizeof(struct EObs)) && SUBJ_INV(s) && !g_thrown)
+#define SUBJ_OK(s) (SUBJ_OK0(s) && g_w_deletes == 0)
